@@ -2,7 +2,13 @@
 EXTENDS Strings, Json
 CONSTANT MaxLen
 VARIABLES s, done
-Init == s \in UNION {[1..n -> Alphabet] : n \in 0..MaxLen} /\ done = FALSE
+\* long strings: the representation of a string changes with its size in bytes (up to 23 bytes it is held inline), which no
+\* string of MaxLen tokens reaches; every word of one or two tokens repeated up to 24 tokens (24 to 48 bytes) is in the universe
+RECURSIVE Rep(_, _)
+Rep(w, k) == IF k = 0 THEN <<>> ELSE w \o Rep(w, k - 1)
+LongStrs == {Rep(w, 24 \div Len(w)) : w \in [1..1 -> Alphabet] \cup [1..2 -> Alphabet]}
+TruncLens == (0..(MaxLen + 1)) \cup (IF Len(s) > MaxLen THEN {Len(s) - 1, Len(s), Len(s) + 1} ELSE {})
+Init == s \in UNION {[1..n -> Alphabet] : n \in 0..MaxLen} \cup LongStrs /\ done = FALSE
 Next == ~done /\ done' = TRUE /\ UNCHANGED s
 \* the laws of the statement on the reference itself
 CaseOnly(r) == r.r = "ok" => Len(r.s) = Len(s) /\ \A i \in 1..Len(s) : Lo(r.s[i]) = Lo(s[i])
@@ -10,13 +16,13 @@ InvCaseOnly == done => CaseOnly(Upper(s)) /\ CaseOnly(Lower(s)) /\ CaseOnly(Capi
 IsSuffix(a, b) == Len(a) <= Len(b) /\ SubSeq(b, Len(b) - Len(a) + 1, Len(b)) = a
 IsPrefix(a, b) == Len(a) <= Len(b) /\ SubSeq(b, 1, Len(a)) = a
 InvTrimEnds == done => IsSuffix(TrimStart(s).s, s) /\ IsPrefix(TrimEnd(s).s, s) /\ Trim(s).s = TrimEnd(TrimStart(s).s).s
-InvTruncate == done => \A n \in 0..(MaxLen + 1) : LET r == Truncate(s, n, "~") IN r.r = "ok" => (Len(s) <= n => r.s = s) /\ (Len(s) > n => Len(r.s) = n + 1)
+InvTruncate == done => \A n \in TruncLens : LET r == Truncate(s, n, "~") IN r.r = "ok" => (Len(s) <= n => r.s = s) /\ (Len(s) > n => Len(r.s) = n + 1)
 InvSplitJoin == done => \A p \in {"dot", "sp"} : LET parts == Split(s, p) IN
                   Len(parts) = 1 + Cardinality({i \in 1..Len(s) : s[i] = p})
 R(x) == [r |-> x.r, s |-> x.s]
 Emit == done => PrintT(<<"VEC", ToJson([s |-> s, upper |-> R(Upper(s)), lower |-> R(Lower(s)), capitalize |-> R(Capitalize(s)), title |-> R(Title(s)),
    trim |-> R(Trim(s)), trim_start |-> R(TrimStart(s)), trim_end |-> R(TrimEnd(s)), trim_dot |-> R(TrimPat(s, "dot")), trim_start_a |-> R(TrimStartPat(s, "a")),
-   trim_end_dot |-> R(TrimEndPat(s, "dot")), trunc |-> [n \in 0..(MaxLen + 1) |-> R(Truncate(s, n, "~"))], replace_a |-> R(Replace(s, "a", "lt")),
+   trim_end_dot |-> R(TrimEndPat(s, "dot")), trunc |-> [n \in TruncLens |-> R(Truncate(s, n, "~"))], replace_a |-> R(Replace(s, "a", "lt")),
    replace_nl |-> R(Replace(s, "nl", "dot")), br |-> R(NewlinesToBr(s)), esc_html |-> R(EscapeHtml(s)), esc_xml |-> R(EscapeXml(s)), wordcount |-> WordCount(s),
    indent |-> [f \in {"ff", "tf", "ft", "tt"} |-> R(Indent(s, f \in {"tf", "tt"}, f \in {"ft", "tt"}))], split_dot |-> Split(s, "dot")])>>)
 =============================================================================
